@@ -172,7 +172,13 @@ func lateDialAnswered(addr string) bool {
 	return n > 0
 }
 
-func execSock(c SockCase, bound time.Duration) error {
+func execSock(c SockCase, bound time.Duration) (err error) {
+	var stuck error
+	defer func() {
+		if stuck != nil {
+			err = fmt.Errorf("%v: the service's lock is still held", stuck)
+		}
+	}()
 	bound *= WatchdogScale()
 	dir, err := os.MkdirTemp("", "sock")
 	if err != nil {
@@ -184,6 +190,11 @@ func execSock(c SockCase, bound time.Duration) error {
 		return fmt.Errorf("HARNESS: %v", err)
 	}
 	addr := sockAddress(c.Kind, dir)
+	shutdown := func() {
+		if serr := GuardBounded("Shutdown", bound, func() error { svc.Shutdown(); return nil }); serr != nil && stuck == nil {
+			stuck = serr
+		}
+	}
 	timeout := time.Duration(c.TimeoutM) * time.Millisecond
 	for cycle := 0; cycle < c.Cycles; cycle++ {
 		pre := fmt.Sprintf("cycle %d on %s: ", cycle, addr)
@@ -207,7 +218,7 @@ func execSock(c SockCase, bound time.Duration) error {
 		}
 		fail := func(format string, a ...interface{}) error {
 			closeAll()
-			svc.Shutdown()
+			shutdown()
 			select {
 			case <-done:
 			case <-time.After(bound):
@@ -273,7 +284,7 @@ func execSock(c SockCase, bound time.Duration) error {
 				return fail("idle for more than the timeout (+5 s) with no connection open, but the service did not stop")
 			}
 		} else {
-			svc.Shutdown()
+			shutdown()
 			if n > 0 {
 				time.Sleep(2 * time.Millisecond)
 				select {
